@@ -246,7 +246,7 @@ func runC17Stream(tier string, seed uint64, idx int) core.Result {
 	rng := core.CaseSeed(seed, "C17.stream", idx)
 	h, err := newSeqHarness("C17", r, rng, true)
 	if err != nil {
-		r.Inconclusive(err.Error())
+		r.Violate("C17/node-cannot-start", "a fresh RF=1 node cannot become leader: "+scrub(err.Error()), nil)
 		return r.Done()
 	}
 	defer h.Close()
